@@ -497,6 +497,10 @@ impl<'tcx> Ex<'tcx> {
                                     }
                                     found
                                 }
+                                TagEncoding::Niche { untagged_variant, .. } if alloc.provenance().ptrs().get(&(off + to)).is_some() => {
+                                    // the niche lives in a pointer and the bytes carry provenance: a real pointer, i.e. the dataful variant
+                                    Some(*untagged_variant)
+                                }
                                 TagEncoding::Niche { untagged_variant, niche_variants, niche_start } => {
                                     let mask = if tsize.bits() == 128 { u128::MAX } else { (1u128 << tsize.bits()) - 1 };
                                     let rel = tagv.wrapping_sub(*niche_start) & mask;
